@@ -29,7 +29,7 @@ IMPL = os.path.join(F.VERIF, "tools", "impl", "c11_impl.py")
 
 NEURONS = ["LIF", "ALIF", "GLIF1", "GLIF2", "QIF", "Izhikevich", "EIF", "AdEx"]
 SYNAPSES = ["DeltaCurrent", "DeltaPlusCurrent", "SingleExponentialCurrent", "DoubleExponentialCurrent"]
-TRAINERS = ["STDP", "STDP-nearest", "TripletSTDP", "MSTDP", "MSTDPET", "KernelSTDP", "DelayAdjustedSTDP",
+TRAINERS = ["STDP", "STDP-nearest", "TripletSTDP", "MSTDP", "MSTDPET", "KernelSTDP", "KernelSTDP-mixed", "DelayAdjustedSTDP",
             "DelayAdjustedSTDPD", "DelayAdjustedMSTDP"]
 DTS = [1.0, 0.5, 1.3]
 
@@ -108,7 +108,7 @@ def gen_cases(rng, n):
 
 def run(ctx):
     rng = random.Random(ctx["seed"])
-    n = 120 if ctx["tier"] == "quick" else 1500
+    n = 200 if ctx["tier"] == "quick" else 2000
     cases = gen_cases(rng, n)
     res = []
     # shard over a few processes
